@@ -878,6 +878,24 @@ def r_single_eval(P, rep):
     for f in FNS:
         if f not in pu.functions:
             rep.undecided('R04.6', 'parse.c:%s' % f, '%s vanished' % f); return
+    # the lowerings may delegate to helpers that build the tree (to_assign -> to_assign2): every tree-returning callee of the two lowering functions
+    # that takes a tree and is not a plain node constructor is a lowering as well
+    try:
+        _plain = set(c03._plain_constructors(pu))
+    except Exception:
+        _plain = set()
+    extra = []
+    for f in ('to_assign', 'new_inc_dec'):
+        for c in pu.fn(f).calls():
+            cal = c.callee()
+            fd = pu.functions.get(cal) if cal else None
+            if fd is None or cal in FNS or cal in extra or cal in _plain or cal.startswith('new_') or cal == 'add_type':
+                continue
+            rt = (fd.type or '').split('(')[0].strip()
+            takes_tree = any((pp.type or '').startswith('Node *') for pp in fd.inner if pp.kind == 'ParmVarDecl')
+            if rt.startswith('Node *') and takes_tree:
+                extra.append(cal)
+    FNS = FNS + tuple(extra)
     try:
         lowering_paths, links, plain_of, pure = c03.lowering_paths, c03._operand_links, c03._plain_constructors, c03.PURE_LEAVES
     except AttributeError:
